@@ -682,3 +682,134 @@ Proof.
   eexists. eexists. eexists. split; [vm_compute; reflexivity|]. split; [vm_compute; reflexivity|].
   split; [vm_compute; reflexivity|]. split; vm_compute; reflexivity.
 Qed.
+
+(* ================================================================================================
+   Client property names through the flatten levels — the reader WITH the prepared repair
+   notes/schb-fix.patch (model/ReflectNames.v: [o_reflect_checked], [o_cache_schema_checked]).
+   [o_reflect] / [o_cache_schema] above are the code as it is, and C18_flatten_names_refuted is
+   what is wrong with it; the statements below are about the code with the repair applied. *)
+From J5V.model Require Import ReflectNames.
+From J5V.proofs Require Import ReflectNamesProofs.
+
+(* the clause, for ALL descriptor sets and file selections the repaired reader accepts: a reflected
+   schema's client property names are pairwise distinct, through all flatten levels
+   ([client_props_of] is ObjectSchema.ClientProperties: own properties, and for every flattened
+   object field the client properties of the object it refers to, recursively) *)
+Theorem C18_client_property_names_distinct : forall D fs S ow,
+  o_reflect_checked D fs = Ok (S, ow) ->
+  forall k r, lookup S k = Some (Linked r) ->
+  exists cps, client_props_of S r = Ok cps /\ NoDup (map p_json cps).
+Proof. exact o_reflect_checked_client_names. Qed.
+Print Assumptions C18_client_property_names_distinct.
+
+(* the repair only adds errors: what the repaired reader returns, the reader returns; every
+   "if the reader returns S then ..." theorem above holds for the repaired reader *)
+Theorem C18_checked_reader_is_the_reader_or_an_error : forall D fs s,
+  o_reflect_checked D fs = Ok s -> o_reflect D fs = Ok s.
+Proof. exact o_reflect_checked_ok. Qed.
+Print Assumptions C18_checked_reader_is_the_reader_or_an_error.
+
+Theorem C18_checked_reader_fails_as_the_reader_fails : forall D fs,
+  (forall s, o_reflect D fs <> Ok s) -> o_reflect_checked D fs = o_reflect D fs.
+Proof. exact o_reflect_checked_not_ok. Qed.
+Print Assumptions C18_checked_reader_fails_as_the_reader_fails.
+
+(* the check calls ClientProperties, which has a type assertion and recurses: with distinct split
+   names (under which C18_client_properties_terminate holds) it neither panics nor runs out of fuel *)
+Theorem C18_checked_reader_total : forall D, wf_keys D -> forall fs,
+  (forall p, o_reflect_checked D fs <> Panic p) /\ o_reflect_checked D fs <> OutOfFuel.
+Proof. exact o_reflect_checked_total. Qed.
+Print Assumptions C18_checked_reader_total.
+
+(* SchemaCache.Schema with the repair: an answer is the cache's answer with the cache's new state, and
+   every object this call registered has distinct client property names in it; anything else leaves the
+   cache as it was; where the cache does not answer the repaired cache gives the same outcome *)
+Theorem C18_checked_cache_answer : forall D fuel s m s1 r,
+  o_cache_schema_checked D fuel s m = (s1, Ok r) ->
+  o_cache_schema D fuel s m = (s1, Ok r) /\
+  forall k n d en am ps, In (k, Linked (RObject n d en am ps)) (registered (fst s) (fst s1)) ->
+    exists cps, client_props (length (fst s1) + 1) (fst s1) ps = Ok cps /\ NoDup (map p_json cps).
+Proof. exact o_cache_schema_checked_ok. Qed.
+Print Assumptions C18_checked_cache_answer.
+
+Theorem C18_checked_cache_rolls_back : forall D fuel s m,
+  (forall r, snd (o_cache_schema_checked D fuel s m) <> Ok r) -> fst (o_cache_schema_checked D fuel s m) = s.
+Proof. exact o_cache_schema_checked_rollback. Qed.
+Print Assumptions C18_checked_cache_rolls_back.
+
+Theorem C18_checked_cache_fails_as_the_cache_fails : forall D fuel s m,
+  (forall r, snd (o_cache_schema D fuel s m) <> Ok r) ->
+  o_cache_schema_checked D fuel s m = o_cache_schema D fuel s m.
+Proof. exact o_cache_schema_checked_not_ok. Qed.
+Print Assumptions C18_checked_cache_fails_as_the_cache_fails.
+
+(* the witness of C18_flatten_names_refuted is an error of the repaired reader, and of the repaired
+   cache asked for A *)
+Theorem C18_flatten_names_is_an_error_with_the_repair :
+  o_reflect_checked flatten_names_desc (d_files flatten_names_desc) = Err e_client_name /\
+  forall m, find_msg flatten_names_desc (bytes "p.v1.A") = Some m ->
+    o_cache_schema_checked flatten_names_desc (size flatten_names_desc) ([], []) m = (([], []), Err e_client_name).
+Proof.
+  split; [vm_compute; reflexivity|]. intros m Hm. vm_compute in Hm. injection Hm as <-. vm_compute. reflexivity.
+Qed.
+Print Assumptions C18_flatten_names_is_an_error_with_the_repair.
+
+(* why the check runs after the build and not next to checkFlattenCycle: B { A child; string x } is read
+   first, A { B b [flatten]; string x } is built while B is still a placeholder, so nothing that looks at
+   A when A is finished can see B's x.  The reader accepts the set, A's client properties are [child; x; x];
+   the repaired reader and the repaired cache (asked for B, or for A) reject it. *)
+Definition flatten_pending_desc : desc :=
+  {| d_msgs := [
+       Msg (bytes "p.v1.B") (bytes "p.v1") [bytes "B"]
+         [Fld (bytes "child") (bytes "child") 1 KMessage CSingle None (TMsg (bytes "p.v1.A")) ex_fopts [];
+          Fld (bytes "x") (bytes "x") 2 KString CSingle None TNone ex_fopts []]
+         [] None None [];
+       Msg (bytes "p.v1.A") (bytes "p.v1") [bytes "A"]
+         [Fld (bytes "b") (bytes "b") 1 KMessage CSingle None (TMsg (bytes "p.v1.B")) (FOpts None None (Some (JObject true)) None) [];
+          Fld (bytes "x") (bytes "x") 2 KString CSingle None TNone ex_fopts []]
+         [] None None []];
+     d_enums := [];
+     d_files := [File (bytes "p/v1/a.proto") (bytes "p.v1") [bytes "p.v1.B"; bytes "p.v1.A"] []] |}.
+Theorem C18_flatten_names_of_an_object_under_construction :
+  wf_keys flatten_pending_desc /\
+  (exists S ow ps cps, o_reflect flatten_pending_desc (d_files flatten_pending_desc) = Ok (S, ow) /\
+     lookup S (bytes "p.v1", bytes "A") = Some (Linked (RObject (bytes "A") [] None [] ps)) /\
+     client_props (length S + 1) S ps = Ok cps /\ map p_json cps = [bytes "child"; bytes "x"; bytes "x"]) /\
+  o_reflect_checked flatten_pending_desc (d_files flatten_pending_desc) = Err e_client_name /\
+  forall full m, In full [bytes "p.v1.B"; bytes "p.v1.A"] -> find_msg flatten_pending_desc full = Some m ->
+    o_cache_schema_checked flatten_pending_desc (size flatten_pending_desc) ([], []) m = (([], []), Err e_client_name).
+Proof.
+  split; [apply wf_desc_b_sound; vm_compute; reflexivity|]. split.
+  - eexists. eexists. eexists. eexists. split; [vm_compute; reflexivity|]. split; [vm_compute; reflexivity|].
+    split; vm_compute; reflexivity.
+  - split; [vm_compute; reflexivity|]. intros full m [<-|[<-|[]]] Hm; vm_compute in Hm; injection Hm as <-; vm_compute; reflexivity.
+Qed.
+Print Assumptions C18_flatten_names_of_an_object_under_construction.
+
+(* non-vacuity: a set with two flatten levels and distinct names passes the check; the client
+   properties of A are the hoisted ones in declaration order *)
+Definition flatten_fine_desc : desc :=
+  {| d_msgs := [
+       Msg (bytes "p.v1.A") (bytes "p.v1") [bytes "A"]
+         [Fld (bytes "id") (bytes "id") 1 KString CSingle None TNone ex_fopts [];
+          Fld (bytes "b") (bytes "b") 2 KMessage CSingle None (TMsg (bytes "p.v1.B")) (FOpts None None (Some (JObject true)) None) []]
+         [] None None [];
+       Msg (bytes "p.v1.B") (bytes "p.v1") [bytes "B"]
+         [Fld (bytes "name") (bytes "name") 1 KString CSingle None TNone ex_fopts [];
+          Fld (bytes "c") (bytes "c") 2 KMessage CSingle None (TMsg (bytes "p.v1.C")) (FOpts None None (Some (JObject true)) None) []]
+         [] None None [];
+       Msg (bytes "p.v1.C") (bytes "p.v1") [bytes "C"]
+         [Fld (bytes "deep") (bytes "deep") 1 KString CSingle None TNone ex_fopts []]
+         [] None None []];
+     d_enums := [];
+     d_files := [File (bytes "p/v1/a.proto") (bytes "p.v1") [bytes "p.v1.A"; bytes "p.v1.B"; bytes "p.v1.C"] []] |}.
+Example C18_example_client_names :
+  wf_keys flatten_fine_desc /\
+  exists S ow r cps, o_reflect_checked flatten_fine_desc (d_files flatten_fine_desc) = Ok (S, ow) /\
+    lookup S (bytes "p.v1", bytes "A") = Some (Linked r) /\ client_props_of S r = Ok cps /\
+    map p_json cps = [bytes "id"; bytes "name"; bytes "deep"].
+Proof.
+  split; [apply wf_desc_b_sound; vm_compute; reflexivity|].
+  eexists. eexists. eexists. eexists. split; [vm_compute; reflexivity|]. split; [vm_compute; reflexivity|].
+  split; vm_compute; reflexivity.
+Qed.
